@@ -362,11 +362,96 @@ func (t *tree) render(terms []string, parentOp string, right bool, mode int, loo
 	return s
 }
 
+// siblingTerm: a term that differs from `t` in ONE respect only (exception added / dropped / changed, '+' toggled,
+// another version of the same family, -only / -or-later spelling; for refs: letter case of the name, DocumentRef
+// added / dropped / changed).  Memoisation, de-duplication and sorting keyed too coarsely confuse such terms.
+func siblingTerm(t *term) *term {
+	n := &term{caseMod: -1}
+	if t.isRef {
+		n.isRef, n.doc, n.ref = true, t.doc, t.ref
+		switch rng.Intn(4) {
+		case 0:
+			n.ref = strings.ToUpper(t.ref)
+			if n.ref == t.ref {
+				n.ref = strings.ToLower(t.ref)
+			}
+		case 1:
+			if t.doc == "" {
+				n.doc = pick(docNames)
+			} else {
+				n.doc = ""
+			}
+		case 2:
+			n.doc = strings.ToUpper(pick(docNames))
+		default:
+			n.ref = t.ref + "-x"
+		}
+		n.build()
+		return n
+	}
+	n.base, n.suffix, n.plus, n.exc = t.base, t.suffix, t.plus, t.exc
+	switch rng.Intn(6) {
+	case 0, 1:
+		if t.exc == "" {
+			n.exc = pick(tblExceptions)
+		} else if rng.Intn(2) == 0 {
+			n.exc = ""
+		} else {
+			n.exc = pick(tblExceptions)
+		}
+	case 2:
+		n.plus = !t.plus
+		if n.plus {
+			n.suffix = ""
+		}
+	case 3:
+		n.base = pick(sameFamilyOrSelf(t.base))
+	case 4:
+		if t.suffix == "" {
+			n.suffix = "-only"
+		} else {
+			n.suffix = ""
+		}
+		n.plus = false
+	default:
+		n.suffix, n.plus = "-or-later", false
+	}
+	n.build()
+	return n
+}
+
+func sameFamilyOrSelf(id string) []string {
+	for _, f := range tblRanges {
+		for _, g := range f {
+			for _, x := range g {
+				if x == id {
+					var out []string
+					for _, g2 := range f {
+						for _, y := range g2 {
+							if !strings.HasSuffix(y, "+") {
+								out = append(out, y)
+							}
+						}
+					}
+					return out
+				}
+			}
+		}
+	}
+	return []string{id}
+}
+
 func distinctTerms(n int) []*term {
 	seen := map[string]bool{}
 	var out []*term
 	for len(out) < n {
 		t := genValidTerm()
+		if len(out) > 0 && rng.Intn(3) == 0 {
+			if s := siblingTerm(out[rng.Intn(len(out))]); implValid(s.text) {
+				t = s
+				count("sibling_terms")
+			}
+		}
 		if seen[t.text] {
 			continue
 		}
@@ -388,6 +473,11 @@ func texts(ts []*term) []string {
 func relatedEntry(t *term) string {
 	if t.isRef {
 		return t.text
+	}
+	if rng.Intn(4) == 0 {
+		if s := siblingTerm(t); implValid(s.text) {
+			return s.text
+		}
 	}
 	n := &term{base: t.base, exc: t.exc, caseMod: -1}
 	switch rng.Intn(5) {
@@ -436,6 +526,21 @@ func genAllowed(terms []*term) []string {
 	if rng.Intn(5) == 0 && len(allowed) > 0 {
 		allowed = append(allowed, allowed[rng.Intn(len(allowed))])
 	}
+	if rng.Intn(6) == 0 && len(allowed) > 0 {
+		// the same entry again in another spelling (letter case, parentheses, spaces)
+		x := allowed[rng.Intn(len(allowed))]
+		switch rng.Intn(3) {
+		case 0:
+			if y := caseFoldKeepingKeywords(x, rng.Intn(2)); implValid(y) {
+				x = y
+			}
+		case 1:
+			x = "(" + x + ")"
+		default:
+			x = " " + x + "  "
+		}
+		allowed = append(allowed, x)
+	}
 	if len(allowed) == 0 {
 		allowed = append(allowed, genValidTerm().text)
 	}
@@ -447,6 +552,53 @@ func genAllowed(terms []*term) []string {
 
 var insertAlphabet = []string{"AND", "OR", "WITH", "(", ")", "+", ":", "MIT", "FOO", "and", "or", "with", "DocumentRef-x", "LicenseRef-y", "DocumentRef-", "LicenseRef-",
 	"Classpath-exception-2.0", " +", "\xc3\xa9", "\xff", "\t", "\n", "GPL-2.0-or-later", "Apache-2.0-or-later", "Apache-2.0-only", "GPL-2.0+", "-only", "-or-later", "\x00"}
+
+// suffixes and near-suffixes appended to words: -only / -or-later handling must strip exactly the suffix
+var suffixExperiments = []string{"-only", "-or-later", "-only-only", "-or-later-only", "-only-or-later", "-onl", "-nly", "-onlyy", "-lyno-only", "-nolo-only",
+	"-or-late", "-or-laterr", "-or-later+", "-only+", "+-only", "-ONLY", "-Or-Later", "y", "-o", "-"}
+
+// caseFoldKeepingKeywords lower-cases (mode 0) or upper-cases (mode 1) every word that is not an operator and keeps
+// the LicenseRef- / DocumentRef- prefixes and the -only / -or-later suffixes: the re-spelling C09 calls harmless for listed ids
+func caseFoldKeepingKeywords(s string, mode int) string {
+	var b strings.Builder
+	i := 0
+	for i < len(s) {
+		c := s[i]
+		isID := func(c byte) bool {
+			return c >= 'a' && c <= 'z' || c >= 'A' && c <= 'Z' || c >= '0' && c <= '9' || c == '-' || c == '.'
+		}
+		if !isID(c) {
+			b.WriteByte(c)
+			i++
+			continue
+		}
+		j := i
+		for j < len(s) && isID(s[j]) {
+			j++
+		}
+		w := s[i:j]
+		i = j
+		if w == "AND" || w == "OR" || w == "WITH" || strings.HasPrefix(w, "LicenseRef-") || strings.HasPrefix(w, "DocumentRef-") {
+			b.WriteString(w)
+			continue
+		}
+		suf := ""
+		for _, x := range []string{"-or-later", "-only"} {
+			if strings.HasSuffix(w, x) {
+				if _, listed := canonicalIn(tblActive, w); !listed {
+					suf, w = x, strings.TrimSuffix(w, x)
+				}
+				break
+			}
+		}
+		if mode == 0 {
+			b.WriteString(strings.ToLower(w) + suf)
+		} else {
+			b.WriteString(strings.ToUpper(w) + suf)
+		}
+	}
+	return b.String()
+}
 
 func tokenize(s string) []string {
 	return strings.Fields(strings.NewReplacer("(", " ( ", ")", " ) ", ":", " : ").Replace(s))
@@ -466,6 +618,8 @@ func systematicMutants(s string, full bool) []string {
 		out = append(out, strings.Join(append(append([]string{}, toks[:i]...), toks[i+1:]...), " "))
 	}
 	out = append(out, strings.Join(toks, ""))
+	// whole-text case folds: valid for plain ids, invalid as soon as an operator or a ref prefix is folded
+	out = append(out, strings.ToLower(s), strings.ToUpper(s), caseFoldKeepingKeywords(s, 0), caseFoldKeepingKeywords(s, 1))
 	for i := 0; i <= len(toks); i++ {
 		if full {
 			for _, ins := range insertAlphabet {
@@ -484,7 +638,18 @@ func mutate(s string) string {
 	if len(toks) == 0 || len(s) == 0 {
 		return s + pick(insertAlphabet)
 	}
-	switch rng.Intn(7) {
+	switch rng.Intn(9) {
+	case 7:
+		if rng.Intn(2) == 0 {
+			return strings.ToLower(s)
+		}
+		return strings.ToUpper(s)
+	case 8:
+		// a suffix experiment on one word
+		i := rng.Intn(len(toks))
+		t := append([]string{}, toks...)
+		t[i] = t[i] + pick(suffixExperiments)
+		return strings.Join(t, " ")
 	case 0:
 		return strings.Join(toks[:rng.Intn(len(toks)+1)], " ")
 	case 1:
